@@ -29,7 +29,7 @@ Whys(e) ==
         ps == Positions(e)
         one(c, w) == IF c THEN <<w>> ELSE <<>>
     IN IF e.files # Files(s) THEN <<"MACHINERY-Binding">>
-       ELSE IF s.fault.kind = "linemacro"
+       ELSE IF IsLineMacro(s.fault.kind)
        \* the source of a linemacro case is clean: a position named by an error names no offending token
        THEN (IF Len(ps) > 0 THEN <<"CleanSourceDiagnosed">>
              ELSE IF ~e.lm.set THEN <<"MACHINERY-LineMacroNotEvaluated">>
@@ -69,7 +69,7 @@ Consume ==
                                        [id |-> e.id, line |-> l, why |-> ws[j],
                                         op |-> IF ws[j] \in {"MACHINERY-Binding", "MACHINERY-NoDiagnostic", "MACHINERY-LineMacroNotEvaluated"} THEN "-" ELSE Construct(e, ws[j]),
                                         want |-> Origin(e.src).line,
-                                        got |-> IF e.src.fault.kind = "linemacro" THEN e.lm.L
+                                        got |-> IF IsLineMacro(e.src.fault.kind) THEN e.lm.L
                                                 ELSE IF Len(Positions(e)) > 0 THEN Positions(e)[1].L ELSE 0]]
                      /\ dead' = TRUE /\ UNCHANGED nops
          [] OTHER -> UNCHANGED <<dead, bad, nops>>
